@@ -49,7 +49,7 @@ func (w *vHW) WriteHeader(s int) {
 func (w *vHW) Flush() {}
 
 func vStubURLParse(raw string) (*url.URL, error) { return &url.URL{Path: raw}, nil }
-func vStubURLString(u *url.URL) string            { return u.Path }
+func vStubURLString(u *url.URL) string           { return u.Path }
 func vStubURLQuery(u *url.URL) url.Values {
 	if u.RawQuery == "" {
 		return url.Values{}
@@ -68,7 +68,7 @@ func vStubHTTPErrorRec(w http.ResponseWriter, msg string, code int) {
 	hw.wrote++
 }
 
-func vStubHeaderSetHTTP(h http.Header, key, val string) {}
+func vStubHeaderSetHTTP(h http.Header, key, val string)   {}
 func vStubHeaderGetHTTP(h http.Header, key string) string { return "" }
 
 func vStubReadFileHTTP(fsys fs.FS, name string) ([]byte, error) { return []byte{0}, nil }
@@ -124,14 +124,14 @@ func init() {
 	vHarnesses["vH_HTTP_seg_nr_alt_V300"] = vH_HTTP_seg_nr_alt_V300
 }
 
-func vH_HTTP_seg_nr_testpic2s_V300() { vHTTPSeg(vAsset_testpic_2s(), "V300", 0, 0) }
-func vH_HTTP_seg_nr_testpic2s_A48() { vHTTPSeg(vAsset_testpic_2s(), "A48", 0, 0) }
-func vH_HTTP_seg_time_testpic2s_V300() { vHTTPSeg(vAsset_testpic_2s(), "V300", 1, 0) }
-func vH_HTTP_seg_time_testpic2s_A48() { vHTTPSeg(vAsset_testpic_2s(), "A48", 1, 0) }
-func vH_HTTP_seg_tlnr_testpic2s_V300() { vHTTPSeg(vAsset_testpic_2s(), "V300", 2, 0) }
+func vH_HTTP_seg_nr_testpic2s_V300()        { vHTTPSeg(vAsset_testpic_2s(), "V300", 0, 0) }
+func vH_HTTP_seg_nr_testpic2s_A48()         { vHTTPSeg(vAsset_testpic_2s(), "A48", 0, 0) }
+func vH_HTTP_seg_time_testpic2s_V300()      { vHTTPSeg(vAsset_testpic_2s(), "V300", 1, 0) }
+func vH_HTTP_seg_time_testpic2s_A48()       { vHTTPSeg(vAsset_testpic_2s(), "A48", 1, 0) }
+func vH_HTTP_seg_tlnr_testpic2s_V300()      { vHTTPSeg(vAsset_testpic_2s(), "V300", 2, 0) }
 func vH_HTTP_seg_nr_testpic2s_V300_atoInf() { vHTTPSeg(vAsset_testpic_2s(), "V300", 0, 1) }
-func vH_HTTP_seg_nr_testpic2s_A48_atoInf() { vHTTPSeg(vAsset_testpic_2s(), "A48", 0, 1) }
-func vH_HTTP_seg_nr_alt_V300() { vHTTPSeg(vAsset_testpic_alt_seg_dur_stl(), "V300", 0, 0) }
+func vH_HTTP_seg_nr_testpic2s_A48_atoInf()  { vHTTPSeg(vAsset_testpic_2s(), "A48", 0, 1) }
+func vH_HTTP_seg_nr_alt_V300()              { vHTTPSeg(vAsset_testpic_alt_seg_dur_stl(), "V300", 0, 0) }
 
 // mode: 0 $Number$, 1 SegmentTimeline $Time$, 2 SegmentTimeline $Number$.  atoMode: 0 none, 1 ato_inf.
 func vHTTPSeg(a *asset, repID string, mode, atoMode int) {
